@@ -2681,6 +2681,175 @@ func c06Unobserved(c *Ctx) {
 	}
 }
 
+// ---- size independence seen through TYPE-REVEALING observations. 1 and 1.0, 0.0 and -0.0 are the same key / compare
+// equal, and Inspect prints them alike: which of the two spellings an operation keeps cannot be seen in the printed
+// containers. Here every operation is run on a SMALL container and on its LARGE twin (the same pairs / elements plus
+// extras >= 1000 that sort last and are removed from the rendering; the twin written as a literal, grown from the small
+// one, and the small one shrunk from the twin); the results are rendered exactly (integers without, floats with a
+// fraction, -0.0) at any depth, keys included, and must be equal - plus in-program probes (type(k), k/2, 1/k).
+func renderNoExtras(o object.Object) string {
+	isExtra := func(x object.Object) bool {
+		i, ok := x.(object.Integer)
+		return ok && i.Value >= 1000
+	}
+	switch {
+	case o.Type() == object.ARRAY:
+		var parts []string
+		for _, e := range object.Elements(o) {
+			if !isExtra(e) {
+				parts = append(parts, renderNoExtras(e))
+			}
+		}
+		return "[" + strings.Join(parts, ",") + "]"
+	case o.Type() == object.MAP:
+		m := o.(object.Map)
+		var parts []string
+		for _, k := range object.Elements(o) {
+			if v, _ := m.Get(k); !isExtra(k) {
+				parts = append(parts, renderNoExtras(k)+":"+renderNoExtras(v))
+			}
+		}
+		return "{" + strings.Join(parts, ",") + "}"
+	}
+	return exact(o)
+}
+
+func c06SizeTwins(c *Ctx) {
+	type twin struct {
+		kind, name string
+		small      string
+		extras     []string // appended one by one: the last makes it large
+	}
+	var twins []twin
+	mapBases := map[string][]string{
+		"intkeys":   {"1:\"a\"", "2:\"b\"", "3:\"c\"", "4:\"d\""},
+		"floatkeys": {"1.0:\"a\"", "2.0:\"b\"", "3.0:\"c\"", "4.5:\"d\""},
+		"zerokey":   {"0.0:\"a\"", "2:\"b\"", "3:\"c\""},
+		"negzero":   {"-0.0:\"a\"", "1:1.0", "2:-0.0", "3:[1,1.0]"},
+		"intzero":   {"0:0", "1:1"},
+		"one":       {"1:\"a\""},
+	}
+	for _, n := range []string{"intkeys", "floatkeys", "zerokey", "negzero", "intzero", "one"} {
+		b := mapBases[n]
+		var ex []string
+		for i := 0; len(b)+i < 5; i++ {
+			ex = append(ex, fmt.Sprintf("%d:%d", 1000+i, 1000+i))
+		}
+		twins = append(twins, twin{"map", n, "{" + strings.Join(b, ",") + "}", ex})
+	}
+	arrBases := map[string][]string{
+		"mixed8": {"1", "1.0", "0.0", "-0.0", "2", "\"a\"", "3", "4.5"},
+		"ints8":  {"1", "2", "3", "4", "5", "6", "7", "8"},
+		"mixed5": {"1.0", "0", "-0.0", "[1,1.0]", "{1.0:1}"},
+	}
+	for _, n := range []string{"mixed8", "ints8", "mixed5"} {
+		b := arrBases[n]
+		var ex []string
+		for i := 0; len(b)+i < 9; i++ {
+			ex = append(ex, strconv.Itoa(1000+i))
+		}
+		twins = append(twins, twin{"array", n, "[" + strings.Join(b, ",") + "]", ex})
+	}
+	type opT struct{ name, stmts, expr string }
+	var mapOps, arrOps []opT
+	for i, u := range []string{"{1.0:\"z\"}", "{1:\"z\"}", "{-0.0:\"z\"}", "{0.0:\"z\"}", "{0:\"z\"}", "{2.0:\"z\",3.5:\"y\",4:1.0}",
+		"{1.0:1,2.0:2,3.0:3,4.0:4,5.0:5,0.0:0}", "{1:1,2:2,3:3,4:4,5:5,-0.0:0}"} {
+		t := strconv.Itoa(i)
+		mapOps = append(mapOps, opT{"merge-left" + t, "", "x+" + u}, opT{"merge-right" + t, "", u + "+x"}, opT{"merge-twice" + t, "", "x+" + u + "+x"},
+			opT{"merge-keytype" + t, "", "type(first(x+" + u + ").key)"}, opT{"merge-keyhalf" + t, "", "first(x+" + u + ").key/2"},
+			opT{"merge-keyinverse" + t, "", "1.0/(first(x+" + u + ").key+0.0)"}, opT{"merge-rebind" + t, "x=x+" + u, "x"},
+			opT{"merge-infunction" + t, "f=func(p,q){p+q}", "[f(x," + u + "),f(" + u + ",x)]"})
+	}
+	for i, k := range []string{"1.0", "1", "-0.0", "0.0", "0", "2.0", "3", "4.5", "7.0", "7"} {
+		t := strconv.Itoa(i)
+		mapOps = append(mapOps, opT{"set" + t, "x[" + k + "]=\"w\"", "x"}, opT{"set-samevalue" + t, "x[" + k + "]=x[" + k + "]", "x"},
+			opT{"set-copy" + t, "y=x;y[" + k + "]=1.0", "[x,y]"}, opT{"set-param" + t, "", "func(p){p[" + k + "]=-0.0;p}(x)"},
+			opT{"set-outer" + t, "func(){x[" + k + "]=1}()", "x"}, opT{"del" + t, "del(x[" + k + "])", "x"}, opT{"get" + t, "", "x[" + k + "]"},
+			opT{"set-keytype" + t, "x[" + k + "]=5", "[type(first(x).key),first(x).key/2]"}, opT{"del-set" + t, "del(x[" + k + "]);x[" + k + "]=2", "x"})
+	}
+	mapOps = append(mapOps, opT{"first", "", "first(x)"}, opT{"rest", "", "rest(x)"}, opT{"keys", "", "keys(x)"}, opT{"range", "", "x[0:2]"}, opT{"range1", "", "x[1:3]"},
+		opT{"copy", "y=x", "[x,y]"}, opT{"inarray", "", "[x,x]"}, opT{"json", "", "json(x[0:1])"}, opT{"firstkey-type", "", "type(first(x).key)"},
+		opT{"keys-halves", "", "func h(a){if len(a)==0{return []};[first(a)/2]+h(rest(a))}(keys(x)[0:1])"}, opT{"equal-self", "y=x", "x==y"})
+	for i, e := range []string{"1.0", "1", "-0.0", "0.0", "0", "[1.0]", "[1,1.0,-0.0]"} {
+		t := strconv.Itoa(i)
+		arrOps = append(arrOps, opT{"append" + t, "", "x+" + e}, opT{"append-rebind" + t, "x=x+" + e, "x"}, opT{"prepend" + t, "", "[" + e + "]+x"},
+			opT{"set" + t, "x[0]=" + e, "x"}, opT{"set1" + t, "x[1]=" + e + ";x[2]=" + e + ";x[3]=" + e, "x"}, opT{"set-copy" + t, "y=x;y[2]=" + e, "[x,y]"},
+			opT{"set-param" + t, "", "func(p){p[3]=" + e + ";p}(x)"}, opT{"set-outer" + t, "func(){x[1]=" + e + "}()", "x"},
+			opT{"set-types" + t, "x[0]=" + e + ";x[2]=" + e, "[type(x[0]),type(x[2]),type(x[1])]"})
+	}
+	arrOps = append(arrOps, opT{"first", "", "first(x)"}, opT{"rest", "", "rest(x)"}, opT{"slice", "", "x[0:3]"}, opT{"slice1", "", "x[1:]"}, opT{"repeat", "", "x*2"},
+		opT{"copy", "y=x", "[x,y]"}, opT{"nest", "", "[x,{1.0:x}]"}, opT{"elem-types", "", "[type(x[0]),type(x[1]),type(x[2]),type(x[3]),type(x[4])]"},
+		opT{"elem-halves", "", "[x[0]/2,x[1]/2,x[4]/2]"}, opT{"elem-inverse", "", "[1.0/(x[2]+0.0),1.0/(x[3]+0.0)]"}, opT{"variadic", "", "vfn(x[0],x[1],x[2],x[3])"},
+		opT{"loop-types", "r=[];for i=4{r=r+[type(x[i])]}", "r"}, opT{"forin-first", "r=[];for e=x[0:4]{r=r+[e]}", "r"}, opT{"equal-self", "y=x", "x==y"},
+		opT{"index-float", "", "x[1.0]"}, opT{"set-index-float", "x[1.0]=7", "x"})
+	n := 0
+	for _, tw := range twins {
+		ops := mapOps
+		if tw.kind == "array" {
+			ops = arrOps
+		}
+		open, closeB, del := tw.small[:1], tw.small[len(tw.small)-1:], ""
+		inner := tw.small[1 : len(tw.small)-1]
+		large := open + inner + "," + strings.Join(tw.extras, ",") + closeB
+		grown := "x=" + tw.small
+		for i, e := range tw.extras {
+			if tw.kind == "map" {
+				kv := strings.SplitN(e, ":", 2)
+				grown += ";x[" + kv[0] + "]=" + kv[1]
+				del += ";del(x[" + kv[0] + "])"
+			} else {
+				grown += ";x=x+" + e
+				_ = i
+			}
+		}
+		builds := []struct{ name, src string }{{"literal", "x=" + large}, {"grown", grown}, {"copied", "z=" + large + ";x=z"}}
+		smalls := []struct{ name, src string }{{"literal", "x=" + tw.small}}
+		if tw.kind == "map" {
+			smalls = append(smalls, struct{ name, src string }{"shrunk", "x=" + large + del})
+		} else {
+			smalls = append(smalls, struct{ name, src string }{"sliced", fmt.Sprintf("x=%s[0:%d]", large, strings.Count(large, ",")+1-len(tw.extras))})
+		}
+		run := func(build string, o opT) (string, string) {
+			se := newSession()
+			prog := build
+			if o.stmts != "" {
+				prog += ";" + o.stmts
+			}
+			r, _, _ := se.exec(prog)
+			c.Eval()
+			if r == "err" {
+				return "<error>", prog + "; " + o.expr
+			}
+			res, err := eval.EvalString(se.s, o.expr, false)
+			if err != nil {
+				return "<error>", prog + "; " + o.expr
+			}
+			return renderNoExtras(res), prog + "; " + o.expr
+		}
+		for _, o := range ops {
+			if o.name == "rest" && tw.name == "one" {
+				continue // rest of a single pair is nil, of the twin a map of extras: emptiness, not representation
+			}
+			want, smallProg := run(smalls[0].src, o)
+			for _, sm := range smalls[1:] {
+				n++
+				if got, prog := run(sm.src, o); got != want {
+					c.Fail("size-dependent-"+tw.kind+"-"+strings.TrimRight(o.name, "0123456789"), "TWIN "+prog,
+						fmt.Sprintf("%s gives %s on the %s small %s, %s on the literal one (%s)", o.expr, got, sm.name, tw.kind, want, smallProg))
+				}
+			}
+			for _, b := range builds {
+				n++
+				if got, prog := run(b.src, o); got != want {
+					c.Fail("size-dependent-"+tw.kind+"-"+strings.TrimRight(o.name, "0123456789"), "TWIN "+prog,
+						fmt.Sprintf("%s gives %s on the large %s (%s; extras >= 1000 left out), %s on the small one (%s)", o.expr, got, tw.kind, b.name, want, smallProg))
+				}
+			}
+		}
+	}
+	c.Extra["size_twin_programs"] = n
+}
+
 func runC06(c *Ctx) {
 	c.Rule = "sequences of bind / copy / index-assign / + element / + array / * / slice / rest / get / map set / merge / del / " +
 		"element increment / store into another container / call mutating its parameter and OUTER variables (func, lambda, named function; " +
@@ -2695,10 +2864,11 @@ func runC06(c *Ctx) {
 		f := strings.Fields(c.ReplayCase)
 		if len(f) == 4 && f[0] == "SEQ" {
 			runJobs(c, []job{{kind: "replay", from: 0, to: 1, replay: c.ReplayCase}})
-		} else if len(f) > 0 && (f[0] == "HANDED" || f[0] == "LAZY" || f[0] == "UNOBSERVED") { // direct phases: cheap, replayed as a whole
+		} else if len(f) > 0 && (f[0] == "HANDED" || f[0] == "LAZY" || f[0] == "UNOBSERVED" || f[0] == "TWIN") { // direct phases: cheap, replayed as a whole
 			c06HandedOut(c)
 			c06LazyRefs(c)
 			c06Unobserved(c)
+			c06SizeTwins(c)
 		} else {
 			fmt.Println("bad replay case")
 		}
@@ -2707,6 +2877,7 @@ func runC06(c *Ctx) {
 	c06HandedOut(c)
 	c06LazyRefs(c)
 	c06Unobserved(c)
+	c06SizeTwins(c)
 	jobs := split("corpus", 0, len(corpus()), 100, 0, 0)
 	if os.Getenv("C06_CORPUS_ONLY") != "" { // reproduction of the recorded defects on a pre-repair tree
 		runJobs(c, jobs)
